@@ -248,6 +248,27 @@ std::vector<Space> spacesFor(const std::string& mode, const std::string& tier){
     return s;
 }
 
+// C06: boxes (centre -2..2, width 0.1..4, steps of 0.1) x heights 1..8: one particle on the upper box face, one on the
+// lower one, one in the middle -- the faces are where the position -> grid coordinate conversion can leave the grid
+template <int Dim>
+void runBoxLattice(const std::string& mode, const Args& args, Report& rep, Progress& pg){
+    rep.spaces.push_back("dim=" + std::to_string(Dim) + " box lattice: centre -2..2 step 0.1 x width 0.1..4 step 0.1 x height 1..8, particles on lower face, upper face, centre");
+    unsigned long ordinal = 0;
+    for(int ic = -20 ; ic <= 20 ; ++ic) for(int iw = 1 ; iw <= 40 ; ++iw) for(int h = 1 ; h <= (Dim == 1 ? 8 : 5) ; ++h){
+        if((ordinal++) % args.nbSlices != args.slice) continue;
+        if(rep.timeUp()){ rep.exhaustive = false; return; }
+        Spec s; s.dim = Dim; s.height = h; s.centre.fill(ic/10.0); s.widths.fill(iw/10.0); s.blockSize = 2; s.upperLevel = 2;
+        const long cells = 4L << (h-1);
+        Particle lo; lo.lat = vref::zeroCoord();
+        Particle hi; hi.lat = vref::zeroCoord(); for(int d = 0 ; d < Dim ; ++d) hi.lat[d] = cells;
+        Particle mid; mid.lat = vref::zeroCoord(); for(int d = 0 ; d < Dim ; ++d) mid.lat[d] = cells/2;
+        Particle mix = hi; mix.lat[0] = 0;
+        s.parts = {lo, hi, mid, mix};
+        if(!pg.begin(s.str())) continue;
+        evalCase<Dim>(mode, s, rep);
+    }
+}
+
 int replayOne(const std::string& mode, const std::string& text){
     const Spec spec = parseSpec(text);
     Report rep; rep.property = mode;
@@ -275,5 +296,6 @@ int main(int argc, char** argv){
             if(rep.timeUp()){ rep.exhaustive = false; break; }
             runSpaceDyn(args.mode, sp, args, rep, pg);
         }
+        if(args.mode == "C06"){ runBoxLattice<1>(args.mode, args, rep, pg); runBoxLattice<3>(args.mode, args, rep, pg); }
     });
 }
